@@ -7,7 +7,7 @@ import z3
 from sx import core as S, env as E, npshim, ffi
 
 PROPERTY = "C13"
-REGIONS = ["transposed-layout", "magnitude-above-2^53", "shadow", "prio", "rank", "first", "last", "min", "max", "1-D", "2-D-axis0", "2-D-axis1", "3-D", "all-zero-column", "tie", "negative-priority",
+REGIONS = ["array-compressed-before", "transposed-layout", "magnitude-above-2^53", "shadow", "prio", "rank", "first", "last", "min", "max", "1-D", "2-D-axis0", "2-D-axis1", "3-D", "all-zero-column", "tie", "negative-priority",
            "later-row-overrides"]
 BOUNDS = ("every array entry symbolic with |p|<=50 (and |p|<=2^62 for the 1-D n=3 and 2x2 shapes, where translator validation is biased to adjacent values above 2^53); shapes: 1-D n<=4 (thorough 5), 2-D 2x2, 2x3 (thorough also 3x2) on both axes, 3-D 2x2x2 (axis 0, "
           "thorough); all seven methods; 'shadow' through the real FFI on path representatives (M8)")
@@ -45,6 +45,12 @@ def instantiations(tier, seed):
         # axis=None flattens to 1x4: four free entries cost ~150 s for shadow/prio, so one entry is pinned there
         out.append({"shape": [2, 2], "axis": None, "method": me, "layout": "T", "fixed": ({"1,1": 3} if me in ("shadow", "prio") else None)})
         out.append({"shape": [2, 2], "axis": 0, "method": me, "layout": "T"})
+    # the same array object compressed twice: first with one method (discarded), then with the method under test
+    pairs = [("min", "max"), ("min", "prio"), ("max", "first"), ("shadow", "last"), ("prio", "min"), ("first", "shadow")]
+    for k, (b4, me) in enumerate(pairs if tier == "thorough" else pairs[:4]):
+        out.append({"shape": [2, 2], "axis": k % 2, "method": me, "before": b4})
+        if tier == "thorough":
+            out.append({"shape": [3], "axis": None, "method": me, "before": b4})
     if tier == "quick":
         out.append({"shape": [2, 2, 2], "axis": 0, "method": "first"})
         out.append({"shape": [2, 2, 2], "axis": 0, "method": "max"})
@@ -99,10 +105,13 @@ def run_inst(spec, run):
             X = ns.pnd.integer_ndarray(arr) if len(shape) >= 2 else ns.pnd.integer_ndarray(arr, variables=[ns.puan.variable(i) for i in range(shape[0])], index=[ns.puan.variable(i) for i in range(shape[0])])
             err = res = None
             try:
+                if spec.get("before"):
+                    # an earlier compression of the SAME array object with another method (result discarded): the array is an input, not scratch space
+                    X.ndint_compress(method=spec["before"], axis=axis)
                 res = X.ndint_compress(method=me, axis=axis)
             except Exception as e:    # noqa
                 err = "%s: %s" % (type(e).__name__, e)
-            return dict(ent=ent, res=res, err=err)
+            return dict(ent=ent, res=res, err=err, X=X)
 
         def on_path(ctx, d):
             run.path(ctx)
@@ -118,6 +127,12 @@ def run_inst(spec, run):
                 return
             run.region(me)
             run.region({1: "1-D", 3: "3-D"}.get(len(shape), "2-D-axis%s" % axis))
+            if spec.get("before"):
+                run.region("array-compressed-before")
+            # the caller's array still holds what it held before the call(s)
+            Xa = np.asarray(d["X"], dtype=object)
+            fr = [S.term(Xa[idx]) != S.term(ent[idx]) for idx in ent] if Xa.shape == tuple(shape) else [z3.BoolVal(True)]
+            run.obligation(ctx, "input-array-unchanged", z3.Or(fr), conc)
             if spec.get("layout") == "T":
                 run.region("transposed-layout")
             res = np.asarray(d["res"], dtype=object)
